@@ -247,9 +247,15 @@ func sweepSer(l gopacket.SerializableLayer, payload []byte, opts gopacket.Serial
 	return
 }
 
-func sweepDirtyBuffer(extra int) gopacket.SerializeBuffer {
-	buf := gopacket.NewSerializeBuffer()
-	n := 2048 + extra
+// dirtyBuffer returns the run's reusable buffer after filling `n` bytes on each side with 0xAA and clearing it:
+// the next PrependBytes/AppendBytes hand out 0xAA-filled memory (a buffer "that previously held other data").
+func (r *sweepRun) dirtyBuffer(extra int) gopacket.SerializeBuffer {
+	if r.dirty == nil {
+		r.dirty = gopacket.NewSerializeBuffer()
+	}
+	buf := r.dirty
+	buf.Clear()
+	n := 1536 + extra
 	if b, err := buf.PrependBytes(n); err == nil {
 		for i := range b {
 			b[i] = 0xAA
@@ -264,7 +270,7 @@ func sweepDirtyBuffer(extra int) gopacket.SerializeBuffer {
 	return buf
 }
 
-var sweepHints = [4][2]int{{0, 0}, {1, 1}, {64, 7}, {4096, 4096}}
+var sweepHints = [4][2]int{{0, 0}, {1, 1}, {64, 7}, {512, 512}}
 
 // serialize is C07 on one layer value: for the four option sets, in this order on the same object:
 // fresh buffer, dirty (0xAA-prefilled, cleared) buffer, pre-sized buffer, fresh buffer again.
@@ -285,7 +291,7 @@ func (r *sweepRun) serialize(l gopacket.SerializableLayer, payload []byte, src s
 			case 0, 3:
 				buf = gopacket.NewSerializeBuffer()
 			case 1:
-				buf = sweepDirtyBuffer(len(payload))
+				buf = r.dirtyBuffer(len(payload))
 			case 2:
 				buf = gopacket.NewSerializeBufferExpectedSize(sweepHints[oi][0], sweepHints[oi][1])
 			}
